@@ -240,10 +240,13 @@ class RM:
     syn is a sub-relation of sem; they differ only on redundant projections
     of declaration-site-variant parameters."""
 
-    def __init__(self, table, mode='sem'):
+    def __init__(self, table, mode='sem', implicit_top=True):
         self.t = table
         self.mode = mode
         self.memo = {}
+        # implicit_top=False: a class is below the top type only through declared supertypes (the relation the
+        # implementation can be expected to be *complete* for: C06's exact fragment excludes uses of the implicit top)
+        self.implicit_top = implicit_top
 
     def is_top(self, t):
         return t == TOP or (t[0] == 'b' and t[1] in TOP_CLASSES)
@@ -342,7 +345,7 @@ class RM:
     def _sub(self, s, t, d):
         if s == BOT:
             return True
-        if self.is_top(t):
+        if t == TOP or (self.implicit_top and self.is_top(t)):
             return True
         if s == t:
             return True
